@@ -63,7 +63,7 @@ FACTORY_TYPES = {
 
 
 def n_cases(tier):
-    return 6000 if tier == "quick" else 100000
+    return 6000 if tier == "quick" else 400000
 
 
 def worker_setup(tier, rec):
